@@ -310,6 +310,11 @@ def specs(rng):
                                            [np.eye(3) + 1e-3, np.array([1., 2, 3]), 0.1, np.array([0.01, 0, 0])], kwargs=dict(rng=3), vary=[0, 1, 3]))
     add('inertial_sensor.Parameters.from_EstimationModel', Call('seeded', lambda model, rng=None: {k_: v for k_, v in vars(inertial_sensor.Parameters.from_EstimationModel(model, rng)).items() if k_ != 'rng'},
                                                                 [mk_model()], seed_arg='rng'))
+    add('inertial_sensor.Parameters.from_EstimationModel', Call('seeded+apply', lambda model, readings, rng=None: inertial_sensor.Parameters.from_EstimationModel(model, rng).apply(readings, 'rate'),
+                                                                [mk_model(), imu[GY]], seed_arg='rng'))
+    add('inertial_sensor.Parameters.apply', Call('walk-only-table', lambda r, rng=None: _apply_table(inertial_sensor.Parameters(bias_walk=[0.02, 0, 0.01], rng=rng), r),
+                                                 [imu[GY]], seed_arg='rng',
+                                                 schema=lambda r: None if list(r.columns) == ['bias_x', 'bias_z'] else f'sensor-estimate table columns {list(r.columns)} for walk on x, z'))
     for st in ('rate', 'increment'):
         add('inertial_sensor.Parameters.apply', Call(st, lambda r, s, rng=None: inertial_sensor.Parameters(np.eye(3) + 1e-3, [1., 2, 3], 0.1, 0.01, rng=rng).apply(r, s),
                                                      [imu[GY], st], seed_arg='rng',
@@ -352,6 +357,11 @@ def specs(rng):
         add('filters.run_feedback_filter', Call(f'wa={wa}', fb, [traj.iloc[0], inc, mk_g(), mk_a(), pos_data, 0.5, wa], schema=lambda r: r[1]))
         add('filters.run_feedforward_filter', Call(f'wa={wa}', ff, [traj, traj * 1.0, mk_g(), mk_a(), pos_data, inc, 0.5, wa], schema=lambda r: r[1]))
     return S
+
+
+def _apply_table(par, readings):
+    par.apply(readings, 'rate')
+    return par.data_frame
 
 
 def _raises(f):
